@@ -34,6 +34,7 @@ type authScript struct {
 	Answers map[string][][]string `json:"answers"`
 	Kind    string                `json:"kind"`    // api (a batch request) | storage (a download through a batch action)
 	ActHost string                `json:"acthost"` // storage: the identity the action's href names
+	Form    string                `json:"form"`    // how redirects spell Location: abs | netpath | path
 }
 
 type authEvent struct {
@@ -143,7 +144,17 @@ func cmdAuth(args []string) {
 				rw.WriteHeader(401)
 				rw.Write([]byte(`{"message":"credentials needed"}`))
 			case "redir":
-				rw.Header().Set("Location", urls[ans[1]]+r.URL.Path)
+				loc := urls[ans[1]] + r.URL.Path
+				if cur != nil {
+					tgtTLS := strings.HasPrefix(urls[ans[1]], "https://")
+					switch {
+					case cur.Form == "path" && ans[1] == name:
+						loc = r.URL.Path // same scheme, host and port
+					case cur.Form == "netpath" && tgtTLS == tls:
+						loc = "//" + strings.SplitN(urls[ans[1]], "://", 2)[1] + r.URL.Path // same scheme, this host and port
+					}
+				}
+				rw.Header().Set("Location", loc)
 				rw.WriteHeader(307)
 			default:
 				if cur != nil && cur.Kind == "storage" {
